@@ -10,7 +10,7 @@ from lib import common, tlc
 from lib.common import Result, Violation, InfraError
 from props import _atomicfile as af
 
-NEG_VARIANTS = ["nosync", "rename_first", "wrongfd", "inplace"]
+NEG_VARIANTS = ["nosync", "rename_first", "wrongfd", "inplace", "ignore_fsync_error"]   # the last one needs a fault
 
 
 def _cfg_with(ctx, base, name, repl):
